@@ -11,7 +11,6 @@
 //! before the next stop (it must return, never hang).
 
 use std::collections::BTreeMap;
-use std::collections::BTreeSet;
 use std::sync::Arc;
 use std::sync::Mutex;
 use std::sync::mpsc;
@@ -121,6 +120,16 @@ fn gen_marked(rng: &mut Rng) -> (String, Vec<(u32, u32)>) {
         lines.push("    return c".to_owned());
         funcs.push(name);
     }
+    // A def with annotated parameters and return type (run-time type checks are instrumented too).
+    let typed = rng.chance(2, 3);
+    if typed {
+        lines.push("def ftyped(p: int, q: str = \"s\", r: list[int] = [1]) -> int:".to_owned());
+        lines.push("    t = p + len(q) + len(r)".to_owned());
+        push_mark(&mut lines, 4, &["p", "t"]);
+        lines.push("    return t".to_owned());
+        lines.push(format!("g0 = g0 + ftyped({}, \"ab\")", rng.range(0, 5)));
+        push_mark(&mut lines, 0, &["g0"]);
+    }
     let nt = 2 + rng.usize(5);
     for t in 0..nt {
         let f = funcs[rng.usize(funcs.len())].clone();
@@ -146,7 +155,12 @@ fn gen_marked(rng: &mut Rng) -> (String, Vec<(u32, u32)>) {
             }
             4 if rng.chance(1, 3) => {
                 // A failing tail: errors must be identical under instrumentation too.
-                lines.push(format!("u{t} = {f}(1) + None"));
+                if typed && rng.bool() {
+                    let bad = *rng.pick(&["ftyped(\"bad\", \"x\")", "ftyped(1, 2)", "ftyped(1, \"x\", [\"y\"])", "ftyped(None)"]);
+                    lines.push(format!("u{t} = {bad}"));
+                } else {
+                    lines.push(format!("u{t} = {f}(1) + None"));
+                }
                 push_mark(&mut lines, 0, &[]);
             }
             _ => {
